@@ -174,8 +174,16 @@ class C08(Prop):
             return "mv,%s,%s" % (oid(), oid())
         if k in ("de", "ec", "dc", "kp"):
             return "%s,%s" % (k, oid())
-        if k in ("aa", "cmd"):
-            return "%s,%s,%s" % (k, oid(), rng.choice(["va", "vb", "vc"]))
+        if k == "aa":
+            return "aa,%s,%s" % (oid(), rng.choice(["va", "vb", "vc"]))
+        if k == "cmd":
+            # mostly the object that was command-enabled last (it is the command giver add_action serves)
+            who = "o%d" % st["lastec"] if st.get("lastec") and rng.chance(2, 3) else oid()
+            return "cmd,%s,%s" % (who, rng.choice(["va", "vb", "vc"]))
+        if k == "ec":
+            o = oid()
+            st["lastec"] = int(o[1:])
+            return "ec," + o
         if k == "ln":
             return "ln,%s,%s" % (oid(), rng.choice(["la", "lb", "lc"]))
         if k == "fl":
@@ -217,14 +225,24 @@ class C08(Prop):
                     target = rng.range(2, max(2, st["est"] + 1))
                 ops = [self.gen_op(rng, st, self.HOPS, target) for _ in range(rng.range(1, 3))]
                 body.append("script o%d %s %s" % (target, hk, ";".join(ops)))
-            if rng.chance(1, 12):
+            if rng.chance(1, 10) and st["top"] >= 3:
+                # a command that (mostly) reaches an action: enable x, let y offer a verb, x issues it (maybe later)
+                x, y = rng.range(2, st["top"] + 1), rng.range(2, st["top"] + 1)
+                v = rng.choice(["va", "vb", "vc"])
+                body += ["t ec,o%d" % x, "t aa,o%d,%s" % (y, v)]
+                st["lastec"] = x
+                if rng.chance(1, 2):
+                    body.append("t " + self.gen_op(rng, st, self.OPS))
+                body.append("t cmd,o%d,%s" % (x, v))
+            elif rng.chance(1, 12):
                 body.append("gc")
             else:
                 op = self.gen_op(rng, st, self.OPS)
                 body.append("t " + op)
                 if op[:2] in ("ld", "cl") and rng.chance(1, 3):
                     # command-enable the (probable) new object so that later moves fan out init() calls
-                    body.append("t ec,o%d" % rng.range(max(2, st["top"] - 1), st["top"] + 1))
+                    st["lastec"] = rng.range(max(2, st["top"] - 1), st["top"] + 1)
+                    body.append("t ec,o%d" % st["lastec"])
             if every:
                 body += ["snap", "probe"]
             elif rng.chance(1, 6):
